@@ -41,6 +41,13 @@ func (c *Client) SendWithSMTPClient(client *smtp.Client, messages ...*Msg) (retu
 			Reason: ErrConnCheck, errlist: []error{err}, isTemp: isTempError(err),
 			errcode: errorCode(err), enhancedStatusCode: enhancedStatusCode(err, escSupport),
 		}
+		// None of the messages has been attempted. A delivery state left behind by an earlier Send
+		// of the same messages must not survive this failed call
+		for _, message := range messages {
+			if message != nil {
+				message.isDelivered = false
+			}
+		}
 		return
 	}
 
